@@ -94,7 +94,7 @@ def to_real(mj):
     if kind == 'DeleteApplication':
         return M.DeleteApplication()
     if kind == 'RenameAppLabel':
-        return M.RenameAppLabel(mj[1], mj[2], legacy_app_label=mj[1])
+        return M.RenameAppLabel(mj[1], mj[2], legacy_app_label=mj[2])
     if kind == 'SQLBarrier':
         def update_func(simulation):
             pass
@@ -222,9 +222,6 @@ def apply(project, label, mj):
             for al, om, f in S.relations_to(p, old, m['name']):
                 f['attrs']['to'] = '%s.%s' % (new, m['name'])
             # "won't change any database state": tables keep their names
-            for f in m['fields']:
-                if f['type'] == 'M2M' and not f['attrs'].get('db_table'):
-                    f['attrs']['db_table'] = S.m2m_table(old, m, f)
             m['meta']['db_table'] = S.table_name(old, m)
         app['label'] = new
     elif kind == 'SQLBarrier':
